@@ -41,7 +41,9 @@ Constructed(s, na, kws) ==
                                   ELSE IF i \in kws THEN KwLeaf(i) ELSE UNSET],
    va  |-> [j \in 1..(IF na > NPos(s) THEN na - NPos(s) ELSE 0) |-> ArgLeaf(NPos(s) + j)],
    ko  |-> [i \in 1..Len(s) |-> IF s[i].kind = "KO" /\ i \in kws THEN KwLeaf(i) ELSE UNSET],
-   ex  |-> [j \in 1..2 |-> IF (100 + j) \in kws THEN KwLeaf(100 + j) ELSE UNSET]]
+   ex  |-> [j \in 1..Len(s) + 2 |->
+              IF ExName(s, j) \in kws /\ (j > Len(s) \/ s[j].kind \in {"PO", "VP", "VK"})
+              THEN KwLeaf(ExName(s, j)) ELSE UNSET]]
 CtorOp(na, kws) == Op("construct", na, 0, 0, SetToSeq(kws))
 
 Init == /\ sig \in Sigs
@@ -113,7 +115,7 @@ LawsFor(op, r) ==
   /\ (op.name = "oargs" /\ op.a = 9 =>
         Len(r.ret) = 3 * Cardinality({j \in 1..Len(l) : l[j] # UNSET})
                    + 3 * Cardinality({j \in 1..Len(sig) : S.ko[j] # UNSET})
-                   + 3 * Cardinality({j \in 1..2 : S.ex[j] # UNSET}))
+                   + 3 * Cardinality({j \in 1..Len(S.ex) : S.ex[j] # UNSET}))
 
 Next ==
   /\ Len(hist) <= MaxOps
